@@ -1553,3 +1553,25 @@ func init() {
 	bridge("strings.Map", nil)
 	delete(natives, "strings.Map")
 }
+
+func init() {
+	// context.WithValue checks key comparability through internal/reflectlite; build the context directly
+	externals["context.WithValue"] = func(fr *frame, a []value) value {
+		parent := a[0].(iface)
+		if parent.t == nil {
+			rtPanic(fr.i, "cannot create context from nil parent")
+		}
+		key := a[1].(iface)
+		if key.t == nil {
+			rtPanic(fr.i, "nil key")
+		}
+		if !types.Comparable(key.t) {
+			rtPanic(fr.i, "key is not comparable")
+		}
+		t := lookupType("context", "valueCtx")
+		if t == nil {
+			panic(unsupported{"context.valueCtx not loaded"})
+		}
+		return iface{t: types.NewPointer(t), v: ptrTo(structure{parent, key, a[2]})}
+	}
+}
